@@ -17,7 +17,7 @@
     return, timeout, the predicate raising, an interrupt. *)
 From Coq Require Import List Bool Arith.
 Import ListNotations.
-From TI Require Import lib.Eff gen.Skeletons proofs.SkelC13.
+From TI Require Import lib.Eff gen.Skeletons proofs.SkelC13 model.C13Any proofs.C13AnyProofs proofs.SkelC13Any.
 
 Theorem C13_query_restores :
   forall vs, length vs = nv_query_terminal ->
@@ -42,3 +42,63 @@ Theorem C13_draw_restores_attrs :
   forall o s', eval cfg_all false sk_Renderable_draw (init vs) o s' -> tmod s' = false.
 Proof. exact draw_restores_attrs. Qed.
 Print Assumptions C13_draw_restores_attrs.
+
+(** * Round 4: faults ANYWHERE, the operation's own clean-up blocks included
+
+    "... leaves the terminal's attribute set byte-for-byte identical ... when it is
+    interrupted by a signal AT ANY POINT": [evalA] (coq/model/C13Any.v) is the semantics above
+    with the faults allowed inside the functions' own [finally] / [except] blocks as well --
+    the final stream writes and flush of draw()'s clean-up (a broken or user-supplied
+    stdout, Ctrl-C while a write to a stalled terminal blocks), the render-data finalizer (a
+    renderable-defined hook), the clean-up of [read_tty] / [write_tty] inlined into
+    [query_terminal].  The one position without a fault is a [tcsetattr] standing in a
+    clean-up block failing BEFORE it takes effect (if the OS refuses the restore nothing can
+    be restored; a signal cannot be delivered between the previous call's return and that
+    call); it may still raise after its effect.  The clean-up must therefore be ORDERED:
+    nothing that may raise precedes the restore unless an inner [try ... finally] restores. *)
+
+(** the analysis ([Eff.analyze] on the transformed program [anyfault p]) is sound for [evalA] *)
+Theorem C13_anyfault_analysis_sound :
+  forall nv p, analyze_any nv p = true ->
+  forall vs, length vs = nv ->
+  forall o s', evalA false p (init vs) o s' -> tmod s' = false.
+Proof. exact analyze_any_sound. Qed.
+Print Assumptions C13_anyfault_analysis_sound.
+
+(** [evalA] has every run of the semantics used above (these theorems are strictly stronger) *)
+Theorem C13_anyfault_includes_round2 :
+  forall c p s o s', eval cfg_all c p s o s' -> evalA c p s o s'.
+Proof. exact evalA_includes_eval. Qed.
+Print Assumptions C13_anyfault_includes_round2.
+
+Theorem C13_query_restores_anywhere :
+  forall vs, length vs = nv_query_terminal ->
+  forall o s', evalA false sk_query_terminal (init vs) o s' -> tmod s' = false.
+Proof. exact query_restores_anywhere. Qed.
+Print Assumptions C13_query_restores_anywhere.
+
+Theorem C13_read_tty_restores_anywhere :
+  forall vs, length vs = nv_read_tty ->
+  forall o s', evalA false sk_read_tty (init vs) o s' -> tmod s' = false.
+Proof. exact read_tty_restores_anywhere. Qed.
+Print Assumptions C13_read_tty_restores_anywhere.
+
+Theorem C13_write_tty_restores_anywhere :
+  forall vs, length vs = nv_write_tty ->
+  forall o s', evalA false sk_write_tty (init vs) o s' -> tmod s' = false.
+Proof. exact write_tty_restores_anywhere. Qed.
+Print Assumptions C13_write_tty_restores_anywhere.
+
+Theorem C13_draw_restores_attrs_anywhere :
+  forall vs, length vs = nv_Renderable_draw ->
+  forall o s', evalA false sk_Renderable_draw (init vs) o s' -> tmod s' = false.
+Proof. exact draw_restores_attrs_anywhere. Qed.
+Print Assumptions C13_draw_restores_attrs_anywhere.
+
+(** a clean-up that runs a renderable-defined hook (or writes to the stream) before the
+    restore is rejected, with a run of [evalA] that ends with the attributes modified *)
+Theorem C13_hook_before_restore_refuted :
+  analyze_any 0 hook_before_restore = false /\
+  exists s', evalA false hook_before_restore (init []) (ORaise Exc) s' /\ tmod s' = true.
+Proof. exact (conj (proj1 analysis_any_shapes) hook_before_restore_run). Qed.
+Print Assumptions C13_hook_before_restore_refuted.
